@@ -262,7 +262,8 @@ class C01(Check):
                                         "msg": f"python {str(w[1])[:100]} ; query {str(got[1])[:100]} ; {shown[:260]}"})
                     break
             else:
-                res["oc"].append("equal")
+                res["oc"].append("equal:" + ("as-delivered" if not order else
+                                             ("rewritten-by-passes" if ast.dump(a) != ast.dump(q) else "passes-changed-nothing")))
 
     def run_chain(self, payload):
         mode, typed, term, stages = payload
